@@ -316,12 +316,32 @@ PENDING_REASON = "static check designed (DESIGN.md §5) but not built yet in thi
 ALL = [f"C{n:02d}" for n in range(1, 34)]
 
 
+def _rule_lines(pid: str) -> str:
+    """'R-Cxx.n first sentence; …' extracted from the docstrings of gsa/rules/<pid>.py and its helper modules."""
+    import ast
+    import re
+
+    rules: dict[str, str] = {}
+    rd = os.path.join(VERIF, "gsa", "rules")
+    for fn in sorted(os.listdir(rd)):
+        if not (fn == f"{pid}.py" or fn.lower().startswith(pid.lower() + "_")) or not fn.endswith(".py"):
+            continue
+        doc = ast.get_docstring(ast.parse(open(os.path.join(rd, fn)).read())) or ""
+        for m in re.finditer(r"(R-(?:C\d\d\.\d+|SIB))\s+(.*?)(?=\n\s*R-(?:C\d\d\.\d+|SIB)\s|\n\n|\Z)", doc, re.S):
+            rid, body = m.group(1), " ".join(m.group(2).split())
+            first = re.split(r"(?<=[a-z\)\]`'])[.:;] ", body, maxsplit=1)[0]
+            rules.setdefault(rid, first[:150])
+    return "; ".join(f"{k} {v}" for k, v in sorted(rules.items()))
+
+
 def build() -> dict:
     checks = []
     for pid in ALL:
         if pid not in CLAIMED:
             continue
         cat, text, note, tech, ref = CLAIMED[pid]
+        # the complete list of rules (one line each) comes from the rule modules' docstrings, so that it cannot lag behind
+        text = f"{text} Rules as built (details in {ref}): {_rule_lines(pid)}"
         checks.append({
             "property_id": pid,
             "quick_cmd": f"{PY} -m gsa.check {pid} --tier quick",
